@@ -128,9 +128,14 @@ class BaseWorker:
             return data[0]
         elif status == 1:
             exc, tb = data
-            if (sync_state is not None and
-                    not isinstance(exc, state.FailedStateSync)):
-                sync_state()
+            if sync_state is not None:
+                if isinstance(exc, state.FailedStateSync):
+                    # A local worker has applied nothing; a remote compiler
+                    # server has applied the state itself before one of its
+                    # own workers failed to.  Either way, resend all next.
+                    sync_state(uncertain=True)
+                else:
+                    sync_state()
             exc.__formatted_error__ = tb
             raise exc
         else:
